@@ -90,6 +90,7 @@ class Profile:
         self.header = 0.5
         self.p_no_settings = 0.06    # the document has no `settings` key at all (Settings::default())
         self.p_foreign_align_keys = 0.3  # alignment maps may name sections that only another level lists
+        self.p_nonpow2 = 0.0         # segment start / end alignments that are no powers of two (C03, C04: "any alignments")
         self.__dict__.update(kw)
 
 
@@ -223,6 +224,8 @@ def gen_overrides(r, prof, into, p, alloc_default, noload_default):
     for f in ["subalign", "segment_start_align", "segment_end_align", "section_start_align", "section_end_align"]:
         if r.chance(p * prof.p_align * 2):
             into[f] = None if r.chance(0.25) else pow2(r, 0, 12)
+            if f.startswith("segment_") and into[f] is not None and r.chance(prof.p_nonpow2):
+                into[f] = r.pick([0x18, 0x14, 0x50, 12, 3, 0x30, 0x1001])
     if r.chance(p):
         into["wildcard_sections"] = r.chance(0.5)
     if r.chance(p):
